@@ -44,7 +44,7 @@ POOL = [0.3, 0.7, 2, 5, 1, "red", "blue", "#112233", "solid", "dashed", "dotted"
 def plan(tier):
     return {"shards": 8 if tier == "quick" else 16, "budget_s": 30 if tier == "quick" else 420,
             "required_counters": ["precedence_cases", "notation_cases", "history_cases", "invalid_cases",
-                                  "reset_checks", "show_observations", "leak_checks", "shared_dict_cases", "two_family_cases", "style_copy_cases"]}
+                                  "reset_checks", "show_observations", "leak_checks", "shared_dict_cases", "two_family_cases", "style_copy_cases", "failed_show_raised"]}
 
 
 # ------------------------------------------------------------------ helpers on the running tree
@@ -432,6 +432,48 @@ def run_style_copy(ctx, case):
         magpy.defaults.reset()
 
 
+def run_failed_show(ctx, case):
+    """no leak from a show() that dies while the traces are generated: the values given in that call, the colour
+    cycle and the resolved defaults must not stay on the object; later default changes still reach it"""
+    import magpylib as magpy
+
+    kind, leaf, v = case["kind"], case["leaf"], case["value"]
+    magpy.defaults.reset()
+    try:
+        state = {"ready": True}
+
+        def trace_kwargs():
+            kw = {"x": [0, 1], "y": [0, 1]}
+            if state["ready"]:
+                kw["z"] = [0, 1]
+            return kw
+        with quiet():
+            obj = make_obj(kind)
+            obj.style.model3d.add_trace(backend="generic", constructor="scatter3d", kwargs=trace_kwargs)
+        state["ready"] = False
+        before = flat(obj.style)
+        dbefore = defaults_json()
+        raised = None
+        try:
+            with quiet():
+                magpy.show(obj, backend="plotly", return_fig=True, **({"style_" + leaf: v} if showable(leaf) else {}))
+        except Exception as e:
+            raised = e
+        ctx.count("failed_show_cases")
+        ctx.count("failed_show_raised" if raised is not None else "failed_show_did_not_fail")
+        ctx.count("leak_checks")
+        ctx.evaluated(case, nontrivial=True)
+        after = flat(obj.style)
+        if after != before:
+            ch = [k for k in after if after.get(k) != before.get(k)]
+            ctx.violation({"kind": "failed-show-leaked-into-object-style", "cls": kind}, case, {"changed": ch[:8]})
+            return
+        if defaults_json() != dbefore:
+            ctx.violation({"kind": "failed-show-changed-defaults", "cls": kind}, case, {})
+    finally:
+        magpy.defaults.reset()
+
+
 def run_invalid(ctx, case):
     import magpylib as magpy
 
@@ -550,7 +592,9 @@ def run_shard(ctx):
         vals = leaf_values(ctx, kind)
         leaf = list(vals)[int(rng.integers(0, len(vals)))]
         good = vals[leaf]
-        if rng.random() < 0.1:
+        if rng.random() < 0.06:
+            run_failed_show(ctx, {"type": "failed_show", "kind": kind, "leaf": leaf, "value": good[int(rng.integers(0, len(good)))]})
+        elif rng.random() < 0.1:
             run_style_copy(ctx, {"type": "style_copy", "kind": kind, "leaf": leaf, "value": good[int(rng.integers(0, len(good)))],
                                  "of": str(rng.choice(["object", "default"])), "direction": str(rng.choice(["copy", "orig"])),
                                  "how": str(rng.choice(["attr", "update_kw"]))})
@@ -585,4 +629,4 @@ def run_shard(ctx):
 def replay(ctx, case):
     ctx._pristine = pristine_defaults()
     {"precedence": run_precedence, "history": run_history, "invalid": run_invalid, "shared_dict": run_shared_dict,
-     "style_copy": run_style_copy}[case["type"]](ctx, case)
+     "style_copy": run_style_copy, "failed_show": run_failed_show}[case["type"]](ctx, case)
